@@ -1,5 +1,6 @@
-import Memterm.Props.C20
+import Memterm.Proofs.DrawFrame
 import Memterm.Props.C06
+import Memterm.Spec.C04
 
 /-
   C04 — Printable text is rendered at the cursor with the current rendition.
@@ -161,29 +162,12 @@ theorem combine_cursor (env : Env) (s : Screen) (c : Nat) : (combine env s c).cu
 /-- apart from cells, the cursor position and the dirty rows, drawing changes nothing -/
 theorem draw_frame (env : Env) (s : Screen) (t : List Nat) : SameSettings s (draw env s t) := ss_draw env s t
 
-/-- a string is drawn character by character, each translated through the character set
-    that is active when draw() is called (C20) -/
-theorem draw_is_fold (env : Env) (s : Screen) (t : List Nat) :
-    draw env s t =
-      markDirty ((t.map (C20.translateSpec s)).foldl (drawChar env) s)
-        ((t.map (C20.translateSpec s)).foldl (drawChar env) s).cursor.y := by
-  rw [C20.draw_eq_spec]; rfl
-
 /-- the row the cursor ends on is marked dirty -/
 theorem draw_marks_cursor_row (env : Env) (s : Screen) (t : List Nat) :
     (draw env s t).dirty (draw env s t).cursor.y = true := by
   simp [draw, markDirty]
 
 /-! #### executable predicate: the implementation's draw transition against the documented one -/
-
-def propC04 (env : Env) (cands : List Nat) (pre : Screen) (c : Call) (post : Screen) : Bool :=
-  match c with
-  | .draw t =>
-    let e := draw env pre t
-    allCellsB pre.lines pre.columns (fun y x => decide (post.cell y x = e.cell y x)) &&
-    post.cursor.x == e.cursor.x && post.cursor.y == e.cursor.y &&
-    sameSettingsB cands pre post
-  | _ => true
 
 theorem C04_holds (env : Env) (cands : List Nat) (s : Screen) (c : Call) :
     propC04 env cands s c (step env s c) = true := by
@@ -203,3 +187,4 @@ example :
 
 end C04
 end Memterm
+
